@@ -391,8 +391,8 @@ def CallSFault (P : Prog) (C : Code) (fuel : Nat) : Prop :=
 
 /-- statements that panic: the machine FAULTs. -/
 def StmtFault (P : Prog) (C : Code) (cx : Ctx) (fuel : Nat) : Prop :=
-  ∀ (s : Stmt) (lp : LoopCtx) (il : Bool) (st : St) (env : Env) (σ : State),
-    Allowed il s → (il = true → ∃ b c, lp = some (b, c)) →
+  ∀ (s : Stmt) (lp : LoopCtx) (ls : Sigs) (st : St) (env : Env) (σ : State),
+    Allowed ls s → Inv lp ls st σ → (Deep lp st.scopes.length ∨ (∃ b, s = .block b) ∧ Deepish lp st.scopes.length) →
     exec fuel P env s = .panic →
     Placed C σ.pc (compS cx lp s st).1 →
     VarsRel cx st.scopes env σ.locals σ.args → Wf st →
@@ -400,13 +400,51 @@ def StmtFault (P : Prog) (C : Code) (cx : Ctx) (fuel : Nat) : Prop :=
 
 /-- the iterations of a loop that panic; the machine is at the loop head mark. -/
 def IterFault (P : Prog) (C : Code) (cx : Ctx) (fuel : Nat) : Prop :=
-  ∀ (init : Stmt) (cond : Option Expr) (post body : Stmt) (lp : LoopCtx) (st : St) (env : Env) (σ : State) (pc0 : Nat),
-    Allowed true body → NoDecl post →
-    iter fuel P env cond post body = .panic →
+  ∀ (init : Stmt) (cond : Option Expr) (post body : Stmt) (lp : LoopCtx) (ls : Sigs) (st : St) (env : Env) (σ : State) (pc0 : Nat),
+    Allowed ((st.nextLabel, true) :: ls) body → NoDecl post → sigOf lp = ls → totalSz lp ≤ σ.stack.length → totalSz lp ≤ 3 →
+    Deepish lp st.scopes.length → (forSt1 cx lp init st).nextLabel = none →
+    iter fuel P env st.nextLabel cond post body = .panic →
     Placed C pc0 (compS cx lp (.loop init cond post body) st).1 →
     σ.pc = pc0 + (compS cx lp init (forSt0 st)).1.length →
     VarsRel cx (forSt1 cx lp init st).scopes env σ.locals σ.args → Wf st →
     (compS cx lp (.loop init cond post body) st).2.cnt ≤ σ.locals.length → σ.frames.length + fuel < 1024 → Faults C σ
+
+/-- a `for` statement that panics. -/
+def LoopFault (P : Prog) (C : Code) (cx : Ctx) (fuel : Nat) : Prop :=
+  ∀ (init : Stmt) (cond : Option Expr) (post body : Stmt) (lp : LoopCtx) (ls : Sigs) (st : St) (env : Env) (σ : State),
+    Allowed ls init → NoDecl post → Allowed ((st.nextLabel, true) :: ls) body →
+    sigOf lp = ls → totalSz lp ≤ σ.stack.length → totalSz lp ≤ 3 → Deepish lp st.scopes.length →
+    execLoop fuel P env st.nextLabel init cond post body = .panic →
+    Placed C σ.pc (compS cx lp (.loop init cond post body) st).1 →
+    VarsRel cx st.scopes env σ.locals σ.args → Wf st →
+    (compS cx lp (.loop init cond post body) st).2.cnt ≤ σ.locals.length → σ.frames.length + fuel < 1024 → Faults C σ
+
+/-- a `switch` statement that panics (in its tag, a case expression or a clause body). -/
+def SwitchFault (P : Prog) (C : Code) (cx : Ctx) (fuel : Nat) : Prop :=
+  ∀ (tag : Option Expr) (ti : Bool) (cl : Stmt) (lp : LoopCtx) (ls : Sigs) (st : St) (env : Env) (σ : State),
+    swCount ls < 3 → AllowedCl ((st.nextLabel, false) :: ls) cl →
+    sigOf lp = ls → totalSz lp ≤ σ.stack.length → Deepish lp st.scopes.length →
+    execSwitch fuel P env st.nextLabel tag ti cl = .panic →
+    Placed C σ.pc (compS cx lp (.switchS tag ti cl) st).1 →
+    VarsRel cx st.scopes env σ.locals σ.args → Wf st →
+    (compS cx lp (.switchS tag ti cl) st).2.cnt ≤ σ.locals.length → σ.frames.length + fuel < 1024 → Faults C σ
+
+def CasesFault (P : Prog) (C : Code) (cx : Ctx) (fuel : Nat) : Prop :=
+  ∀ (cl : Stmt) (lp : LoopCtx) (ls : Sigs) (st : St) (env : Env) (σ : State) (ti : Bool) (tv : Val),
+    AllowedCl ls cl → SwCtx C lp ls st σ ti tv (σ.pc + (compS cx lp cl st).1.length) →
+    execCases fuel P env tv ti cl = .panic →
+    Placed C σ.pc (compS cx lp cl st).1 →
+    VarsRel cx st.scopes env σ.locals σ.args → Wf st →
+    (compS cx lp cl st).2.cnt ≤ σ.locals.length → σ.frames.length + fuel < 1024 → Faults C σ
+
+def BodyFault (P : Prog) (C : Code) (cx : Ctx) (fuel : Nat) : Prop :=
+  ∀ (cl body rest : Stmt) (ft : Bool) (lp : LoopCtx) (ls : Sigs) (st : St) (env : Env) (σ : State) (pc0 : Nat) (ti : Bool) (tv : Val),
+    ((∃ e1 e2, cl = .caseS e1 e2 body ft rest) ∨ (cl = .defaultS body ∧ ft = false ∧ rest = .skip)) →
+    AllowedCl ls cl → SwCtx C lp ls st σ ti tv (pc0 + (compS cx lp cl st).1.length) →
+    execBody fuel P env body ft rest = .panic →
+    Placed C pc0 (compS cx lp cl st).1 → σ.pc = pc0 + testsLen cx lp st cl →
+    VarsRel cx st.scopes env σ.locals σ.args → Wf st →
+    (compS cx lp cl st).2.cnt ≤ σ.locals.length → σ.frames.length + fuel < 1024 → Faults C σ
 
 theorem callS_fault {P : Prog} {C : Code} {cx : Ctx} {fuel : Nat} {σ : State} {c : Code} {f : String} {vs : List Val}
     (htab : cx.funcs = funcTable P) (ihCS : CallSFault P C fuel)
@@ -418,7 +456,7 @@ theorem callS_fault {P : Prog} {C : Code} {cx : Ctx} {fuel : Nat} {σ : State} {
   exact Faults.of_reach hr (ihCS f vs { σ with pc := σ.pc + c.length, stack := vs ++ σ.stack } σ.stack hcall rfl hf hdep)
 
 theorem stmtFault_zero (P : Prog) (C : Code) (cx : Ctx) : StmtFault P C cx 0 := by
-  intro s lp il st env σ _ _ hex
+  intro s lp ls st env σ _ _ _ hex
   simp [exec] at hex
 
 theorem nj (C : Code) : ∀ (c : Bool) (t : Nat), Mode.val = .jump c t → ∃ tp, findLabel C t = some tp := by
@@ -429,32 +467,40 @@ theorem stmtFault_succ (P : Prog) (C : Code) (cx : Ctx) (fuel : Nat)
     (hn : (labelsOf C).Nodup) (htab : cx.funcs = funcTable P)
     (ihE : ∀ sc env, ExprFault P C cx sc env fuel) (okE : ∀ sc env, ExprFOK P C cx sc env fuel)
     (ih : StmtFault P C cx fuel) (ok : StmtFOK P C cx fuel)
-    (ihI : IterFault P C cx fuel) (ihCS : CallSFault P C fuel) : StmtFault P C cx (fuel + 1) := by
-  intro s lp il st env σ hal hil hex hp hrel hwf hcnt hdep
+    (ihL : LoopFault P C cx fuel) (ihSw : SwitchFault P C cx fuel) (ihCS : CallSFault P C fuel) : StmtFault P C cx (fuel + 1) := by
+  intro s lp ls st env σ hal hinv hd hex hp hrel hwf hcnt hdep
   have hdep' : σ.frames.length + fuel < 1024 := by omega
+  have hdI : Deepish lp st.scopes.length := hd.elim Deep.ish (·.2)
+  have hdS : Deep lp (st.scopes.length + 1) := hdI.succ
   cases s with
   | skip => simp [exec] at hex
   | seq a b =>
     simp only [Allowed] at hal
+    have hd1 : Deep lp st.scopes.length := by
+      rcases hd with h | ⟨⟨b', hb⟩, _⟩
+      · exact h
+      · cases hb
     simp only [exec] at hex
     simp only [compS] at hp hcnt
     have hmb := compS_mono cx b lp (compS cx lp a st).2 (compS_wf cx a lp st hwf).nonempty
     cases ha : exec fuel P env a with
     | ok oa =>
       rw [ha] at hex
-      have hpa := ok a lp 1 il st env σ oa hal.1 hil (Or.inl (Nat.le_refl 1)) ha hp.left hrel hwf (Nat.le_trans hmb.1 hcnt) hdep'
+      have hpa := ok a lp ls st env σ oa hal.1 hinv (Or.inl hd1) ha hp.left hrel hwf (Nat.le_trans hmb.1 hcnt) hdep'
       cases oa with
       | norm env1 =>
         simp only at hex
         obtain ⟨σ1, hr1, hpc1, hs1, hrel1⟩ := hpa
         have hpb : Placed C σ1.pc (compS cx lp b (compS cx lp a st).2).1 := by rw [hpc1]; exact hp.right
-        exact Faults.of_reach hr1 (ih b lp il _ env1 σ1 hal.2 hil hex hpb hrel1 (compS_wf cx a lp st hwf)
+        exact Faults.of_reach hr1 (ih b lp ls _ env1 σ1 hal.2
+          (hinv.to (compS_noLabel cx a lp st (allowed_labelsOK a ls hal.1) (Or.inl hinv.noLabel)) (by rw [hs1.stack]))
+          (Or.inl (by rw [(compS_mono cx a lp st hwf.nonempty).2]; exact hd1)) hex hpb hrel1 (compS_wf cx a lp st hwf)
           (by rw [hs1.len]; exact hcnt) (by rw [hs1.frames]; exact hdep'))
       | ret v => simp at hex
-      | brk e => simp at hex
-      | cont e => simp at hex
+      | brk l e => simp at hex
+      | cont l e => simp at hex
     | panic =>
-      exact ih a lp il st env σ hal.1 hil ha hp.left hrel hwf (Nat.le_trans hmb.1 hcnt) hdep'
+      exact ih a lp ls st env σ hal.1 hinv (Or.inl hd1) ha hp.left hrel hwf (Nat.le_trans hmb.1 hcnt) hdep'
     | overflow => rw [ha] at hex; simp at hex
     | stuck => rw [ha] at hex; simp at hex
     | timeout => rw [ha] at hex; simp at hex
@@ -510,7 +556,10 @@ theorem stmtFault_succ (P : Prog) (C : Code) (cx : Ctx) (fuel : Nat)
       simp only [exec] at hex
       simp only [compS] at hp
       cases hv : evalE fuel P env e with
-      | panic => exact (ihE st.scopes env) e .val st.nl σ hv hp.left hrel hdep' (nj C)
+      | panic =>
+        have hr0 := run_dropItems (C := C) (σ := σ) hinv.few hinv.stk hp.left.left
+        exact Faults.of_reach hr0 ((ihE st.scopes env) e .val st.nl
+          { σ with pc := σ.pc + (dropItems (totalSz lp)).length, stack := σ.stack.drop (totalSz lp) } hv hp.left.right hrel hdep' (nj C))
       | ok v => rw [hv] at hex; simp at hex
       | overflow => rw [hv] at hex; simp at hex
       | stuck => rw [hv] at hex; simp at hex
@@ -559,7 +608,17 @@ theorem stmtFault_succ (P : Prog) (C : Code) (cx : Ctx) (fuel : Nat)
         | timeout => rw [hc] at hex; simp at hex
   | varDecl x isBool init =>
     cases init with
-    | some e => simp [Allowed] at hal
+    | some e =>
+      simp only [Allowed] at hal
+      rw [compS_varDecl_define cx lp x isBool e st hal] at hp
+      simp only [exec] at hex
+      simp only [compS] at hp
+      cases hv : evalE fuel P env e with
+      | panic => exact (ihE st.scopes env) e .val st.nl σ hv hp.left hrel hdep' (nj C)
+      | ok v => rw [hv] at hex; simp at hex
+      | overflow => rw [hv] at hex; simp at hex
+      | stuck => rw [hv] at hex; simp at hex
+      | timeout => rw [hv] at hex; simp at hex
     | none => simp [exec] at hex
   | opAssign x op e =>
     simp only [Allowed] at hal
@@ -609,7 +668,7 @@ theorem stmtFault_succ (P : Prog) (C : Code) (cx : Ctx) (fuel : Nat)
     rw [compS_block] at hp hcnt
     have hrel' : VarsRel cx st.push.scopes env.push σ.locals σ.args := varsRel_push hrel
     cases hb : exec fuel P env.push body with
-    | panic => exact ih body lp il st.push env.push σ hal hil hb hp hrel' (wf_push hwf) (by simpa using hcnt) hdep'
+    | panic => exact ih body lp ls st.push env.push σ hal (hinv.to hinv.noLabel rfl) (Or.inl hdS) hb hp hrel' (wf_push hwf) (by simpa using hcnt) hdep'
     | ok ob => rw [hb] at hex; cases ob <;> simp at hex
     | overflow => rw [hb] at hex; simp at hex
     | stuck => rw [hb] at hex; simp at hex
@@ -773,6 +832,9 @@ theorem stmtFault_succ (P : Prog) (C : Code) (cx : Ctx) (fuel : Nat)
     have hwf1 : Wf (ifSt1 cx lp c thn st) := by
       have := compS_wf cx (.block thn) lp _ hwfC
       rwa [compS_block] at this
+    have hnl1 : (ifSt1 cx lp c thn st).nextLabel = none :=
+      compS_noLabel cx thn lp (ifStT cx c st) (allowed_labelsOK thn ls hal.1) (Or.inl hinv.noLabel)
+    have hd1S : Deep lp (ifSt1 cx lp c thn st).scopes.length := by rw [ifSt1_scopes]; exact hdS
     cases k with
     | none =>
       rw [compS_ite_none] at hp hcnt
@@ -800,8 +862,8 @@ theorem stmtFault_succ (P : Prog) (C : Code) (cx : Ctx) (fuel : Nat)
             cases hb : exec fuel P env.push (.block thn) with
             | panic =>
               refine Faults.of_reach (hjmp.trans h1) ?_
-              exact ih (.block thn) lp il { ifSt0 st with nl := (ifCond cx c st).2 } env.push
-                { σ with pc := σ.pc + (ifCond cx c st).1.length + 1 } hal.1 hil hb
+              exact ih (.block thn) lp ls { ifSt0 st with nl := (ifCond cx c st).2 } env.push
+                { σ with pc := σ.pc + (ifCond cx c st).1.length + 1 } hal.1 (hinv.to hinv.noLabel rfl) (Or.inl hdS) hb
                 (by rw [compS_block]; exact hpt) hrelP hwfC
                 (by rw [compS_block]; show (compS cx lp thn (ifStT cx c st)).2.pop.cnt ≤ _; simpa [ifSt1] using hcnt) hdep'
             | ok ob => rw [hb] at hex; cases ob <;> simp at hex
@@ -848,8 +910,8 @@ theorem stmtFault_succ (P : Prog) (C : Code) (cx : Ctx) (fuel : Nat)
             cases hb : exec fuel P env.push (.block thn) with
             | panic =>
               refine Faults.of_reach (hjmp.trans h1) ?_
-              exact ih (.block thn) lp il { ifSt0 st with nl := (ifCond cx c st).2 } env.push
-                { σ with pc := σ.pc + (ifCond cx c st).1.length + 1 } hal.1 hil hb
+              exact ih (.block thn) lp ls { ifSt0 st with nl := (ifCond cx c st).2 } env.push
+                { σ with pc := σ.pc + (ifCond cx c st).1.length + 1 } hal.1 (hinv.to hinv.noLabel rfl) (Or.inl hdS) hb
                 (by rw [compS_block]; exact hpt) hrelP hwfC
                 (by rw [compS_block]; show (compS cx lp thn (ifStT cx c st)).2.pop.cnt ≤ _
                     exact Nat.le_trans hcntE (by simpa using hcnt)) hdep'
@@ -866,8 +928,8 @@ theorem stmtFault_succ (P : Prog) (C : Code) (cx : Ctx) (fuel : Nat)
             cases hb : exec fuel P env.push (.block els) with
             | panic =>
               refine Faults.of_reach (hjmp.trans h1) ?_
-              exact ih (.block els) lp il (ifSt1 cx lp c thn st) env.push
-                { σ with pc := σ.pc + (ifCond cx c st).1.length + 1 + (compS cx lp thn (ifStT cx c st)).1.length + 1 + 1 } hal.2 hil hb
+              exact ih (.block els) lp ls (ifSt1 cx lp c thn st) env.push
+                { σ with pc := σ.pc + (ifCond cx c st).1.length + 1 + (compS cx lp thn (ifStT cx c st)).1.length + 1 + 1 } hal.2 (hinv.to hnl1 rfl) (Or.inl hd1S) hb
                 (by rw [compS_block]; exact hpe) hrelE hwf1
                 (by rw [compS_block]; show (compS cx lp els (ifSt1 cx lp c thn st).push).2.pop.cnt ≤ _; simpa using hcnt) hdep'
             | ok ob => rw [hb] at hex; cases ob <;> simp at hex
@@ -913,8 +975,8 @@ theorem stmtFault_succ (P : Prog) (C : Code) (cx : Ctx) (fuel : Nat)
             cases hb : exec fuel P env.push (.block thn) with
             | panic =>
               refine Faults.of_reach (hjmp.trans h1) ?_
-              exact ih (.block thn) lp il { ifSt0 st with nl := (ifCond cx c st).2 } env.push
-                { σ with pc := σ.pc + (ifCond cx c st).1.length + 1 } hal.1 hil hb
+              exact ih (.block thn) lp ls { ifSt0 st with nl := (ifCond cx c st).2 } env.push
+                { σ with pc := σ.pc + (ifCond cx c st).1.length + 1 } hal.1 (hinv.to hinv.noLabel rfl) (Or.inl hdS) hb
                 (by rw [compS_block]; exact hpt) hrelP hwfC
                 (by rw [compS_block]; show (compS cx lp thn (ifStT cx c st)).2.pop.cnt ≤ _
                     exact Nat.le_trans hcntE (by simpa using hcnt)) hdep'
@@ -931,8 +993,8 @@ theorem stmtFault_succ (P : Prog) (C : Code) (cx : Ctx) (fuel : Nat)
             cases hb : exec fuel P env.push els with
             | panic =>
               refine Faults.of_reach (hjmp.trans h1) ?_
-              exact ih els lp il (ifSt1 cx lp c thn st) env.push
-                { σ with pc := σ.pc + (ifCond cx c st).1.length + 1 + (compS cx lp thn (ifStT cx c st)).1.length + 1 + 1 } hal.2 hil hb
+              exact ih els lp ls (ifSt1 cx lp c thn st) env.push
+                { σ with pc := σ.pc + (ifCond cx c st).1.length + 1 + (compS cx lp thn (ifStT cx c st)).1.length + 1 + 1 } hal.2 (hinv.to hnl1 rfl) (Or.inl hd1S) hb
                 hpe hrelE hwf1 (by simpa using hcnt) hdep'
             | ok ob => rw [hb] at hex; cases ob <;> simp at hex
             | overflow => rw [hb] at hex; simp at hex
@@ -949,50 +1011,54 @@ theorem stmtFault_succ (P : Prog) (C : Code) (cx : Ctx) (fuel : Nat)
   | loop init cond post body =>
     simp only [Allowed] at hal
     simp only [exec] at hex
-    have hp' := hp
-    have hcnt' := hcnt
-    rw [compS_loop] at hp' hcnt'
-    simp only at hp' hcnt'
-    have hne1 : (forSt1 cx lp init st).scopes ≠ [] := by
-      have := (compS_mono cx init lp (forSt0 st) (by simp)).2
-      exact ne_nil_of_length this (by simp)
-    have hc1 : (forSt1 cx lp init st).cnt ≤ (forSt3 cx lp init cond body st).cnt := by
-      have := (compS_mono cx body (some (st.nl + 1, st.nl + 2)) (forStB cx lp init cond st) (by simp)).1
-      simpa [forSt3] using this
-    have hc3 : (forSt3 cx lp init cond body st).cnt ≤ (compS cx lp post (forSt3 cx lp init cond body st)).2.cnt :=
-      (compS_mono cx post lp _ (by rw [forSt3_scopes]; exact hne1)).1
-    have hpi : Placed C σ.pc (compS cx lp init (forSt0 st)).1 := hp'.left.left.left.left.left.left
-    have hcnti : (compS cx lp init (forSt0 st)).2.cnt ≤ σ.locals.length := by
-      have : (compS cx lp init (forSt0 st)).2.cnt = (forSt1 cx lp init st).cnt := rfl
-      simp only [pop_cnt] at hcnt'
-      omega
-    cases hi : exec fuel P env.push init with
-    | ok oi =>
-      rw [hi] at hex
-      have hposti := ok init lp 1 false (forSt0 st) env.push σ oi hal.1 (by intro h; cases h) (Or.inl (Nat.le_refl 1)) hi hpi
-        (varsRel_push hrel) (wf_push (wf_nl hwf _)) hcnti hdep'
-      cases oi with
-      | norm env1 =>
-        simp only at hex
-        obtain ⟨σ1, hr1, hpc1, hs1, hrel1⟩ := hposti
-        cases hit : iter fuel P env1 cond post body with
-        | panic =>
-          refine Faults.of_reach hr1 ?_
-          exact ihI init cond post body lp st env1 σ1 σ.pc hal.2.2 hal.2.1 hit hp hpc1 hrel1 hwf
-            (by rw [hs1.len]; exact hcnt) (by rw [hs1.frames]; exact hdep')
-        | ok oo => rw [hit] at hex; cases oo <;> simp at hex
-        | overflow => rw [hit] at hex; simp at hex
-        | stuck => rw [hit] at hex; simp at hex
-        | timeout => rw [hit] at hex; simp at hex
-      | ret v => simp at hex
-      | brk e => simp at hex
-      | cont e => simp at hex
-    | panic =>
-      exact ih init lp false (forSt0 st) env.push σ hal.1 (by intro h; cases h) hi hpi
-        (varsRel_push hrel) (wf_push (wf_nl hwf _)) hcnti hdep'
-    | overflow => rw [hi] at hex; simp at hex
-    | stuck => rw [hi] at hex; simp at hex
-    | timeout => rw [hi] at hex; simp at hex
+    have hnl := hinv.noLabel
+    exact ihL init cond post body lp ls st env σ hal.1 hal.2.1 (by rw [hnl]; exact hal.2.2) hinv.sig hinv.stk hinv.few hdI
+      (by rw [hnl]; exact hex) hp hrel hwf hcnt hdep'
+  | labeled l s =>
+    cases s with
+    | loop init cond post body =>
+      have hal' : Allowed ls init ∧ NoDecl post ∧ Allowed ((some l, true) :: ls) body := by simpa only [Allowed] using hal
+      simp only [exec] at hex
+      rw [compS_labeled] at hp hcnt
+      exact ihL init cond post body lp ls { st with nextLabel := some l } env σ hal'.1 hal'.2.1 hal'.2.2 hinv.sig hinv.stk hinv.few hdI
+        hex hp hrel (wf_mono hwf rfl (Nat.le_refl _)) hcnt hdep'
+    | switchS tag ti cl =>
+      have hal' : swCount ls < 3 ∧ AllowedCl ((some l, false) :: ls) cl := by simpa only [Allowed] using hal
+      simp only [exec] at hex
+      rw [compS_labeled] at hp hcnt
+      exact ihSw tag ti cl lp ls { st with nextLabel := some l } env σ hal'.1 hal'.2 hinv.sig hinv.stk hdI
+        hex hp hrel (wf_mono hwf rfl (Nat.le_refl _)) hcnt hdep'
+    | skip => simp [Allowed] at hal
+    | seq a b => simp [Allowed] at hal
+    | define x e => simp [Allowed] at hal
+    | assign x e => simp [Allowed] at hal
+    | opAssign x op e => simp [Allowed] at hal
+    | inc x => simp [Allowed] at hal
+    | dec x => simp [Allowed] at hal
+    | varDecl x b i => simp [Allowed] at hal
+    | exprStmt e => simp [Allowed] at hal
+    | discard e => simp [Allowed] at hal
+    | panicS e => simp [Allowed] at hal
+    | ite c t k e => simp [Allowed] at hal
+    | ret e => simp [Allowed] at hal
+    | brk => simp [Allowed] at hal
+    | cont => simp [Allowed] at hal
+    | block b => simp [Allowed] at hal
+    | labeled l' s' => simp [Allowed] at hal
+    | brkL l' => simp [Allowed] at hal
+    | contL l' => simp [Allowed] at hal
+    | caseS e1 e2 b ft r => simp [Allowed] at hal
+    | defaultS b => simp [Allowed] at hal
+  | brkL l => simp [exec] at hex
+  | contL l => simp [exec] at hex
+  | switchS tag ti cl =>
+    simp only [Allowed] at hal
+    simp only [exec] at hex
+    have hnl := hinv.noLabel
+    exact ihSw tag ti cl lp ls st env σ hal.1 (by rw [hnl]; exact hal.2) hinv.sig hinv.stk hdI
+      (by rw [hnl]; exact hex) hp hrel hwf hcnt hdep'
+  | caseS e1 e2 body ft rest => simp [exec] at hex
+  | defaultS body => simp [exec] at hex
 
 end NeoModel.CompileProofs
 
@@ -1000,7 +1066,7 @@ namespace NeoModel.CompileProofs
 open NeoModel.MiniVm NeoModel.MiniVm.Asm NeoModel.MiniGo NeoModel.Compile
 
 theorem iterFault_zero (P : Prog) (C : Code) (cx : Ctx) : IterFault P C cx 0 := by
-  intro init cond post body lp st env σ pc0 _ _ hit
+  intro init cond post body lp ls st env σ pc0 _ _ _ _ _ _ _ hit
   simp [iter] at hit
 
 set_option maxHeartbeats 1000000 in
@@ -1009,7 +1075,7 @@ theorem iterFault_succ (P : Prog) (C : Code) (cx : Ctx) (fuel : Nat)
     (ihE : ∀ sc env, ExprFault P C cx sc env fuel) (okE : ∀ sc env, ExprFOK P C cx sc env fuel)
     (ih : StmtFault P C cx fuel) (ok : StmtFOK P C cx fuel) (ihI : IterFault P C cx fuel) :
     IterFault P C cx (fuel + 1) := by
-  intro init cond post body lp st env σ pc0 halb hnd hit hp hpc hrel hwf hcnt hdep
+  intro init cond post body lp ls st env σ pc0 halb hnd hls hstk hfew hdeep hnl1 hit hp hpc hrel hwf hcnt hdep
   have hdep' : σ.frames.length + fuel < 1024 := by omega
   have hp' := hp
   have hcnt' := hcnt
@@ -1017,7 +1083,7 @@ theorem iterFault_succ (P : Prog) (C : Code) (cx : Ctx) (fuel : Nat)
   simp only at hp' hcnt'
   generalize hci : (compS cx lp init (forSt0 st)).1 = ci at hp' hpc
   generalize hcc : (forCond cx lp init cond st).1 = cc at hp'
-  generalize hcb : (compS cx (some (st.nl + 1, st.nl + 2)) body (forStB cx lp init cond st)).1 = cb at hp'
+  generalize hcb : (compS cx (forEnt st :: lp) body (forStB cx lp init cond st)).1 = cb at hp'
   generalize hcp : (compS cx lp post (forSt3 cx lp init cond body st)).1 = cp at hp'
   have hP0 : Placed C (pc0 + ci.length) [Item.lbl st.nl] := hp'.left.left.left.left.left.right
   have hPc : Placed C (pc0 + ci.length + 1) cc := hp'.left.left.left.left.right.cast (by simp [Nat.add_assoc] <;> omega)
@@ -1030,48 +1096,65 @@ theorem iterFault_succ (P : Prog) (C : Code) (cx : Ctx) (fuel : Nat)
   have hLstart : findLabel C st.nl = some (pc0 + ci.length) := hP0.label hn
   have hLpost : findLabel C (st.nl + 2) = some (pc0 + ci.length + 1 + cc.length + cb.length) := hPp.label hn
   have hLend : findLabel C (st.nl + 1) = some (pc0 + ci.length + 1 + cc.length + cb.length + 1 + cp.length + 1) := hPj.tail.label hn
-  have hwf1 : Wf (forSt1 cx lp init st) := compS_wf cx init lp _ (wf_push (wf_nl hwf _))
+  have hwf1 : Wf (forSt1 cx lp init st) :=
+    compS_wf cx init lp _ (wf_push (wf_mono (st' := { st with nl := st.nl + 3, nextLabel := none }) hwf rfl (Nat.le_refl _)))
   have hne1 : (forSt1 cx lp init st).scopes ≠ [] := hwf1.nonempty
   have hc1 : (forSt1 cx lp init st).cnt ≤ (forSt3 cx lp init cond body st).cnt := by
-    have := (compS_mono cx body (some (st.nl + 1, st.nl + 2)) (forStB cx lp init cond st) (by simp)).1
+    have := (compS_mono cx body (forEnt st :: lp) (forStB cx lp init cond st) (by simp)).1
     simpa [forSt3] using this
   have hc3 : (forSt3 cx lp init cond body st).cnt ≤ σ.locals.length := by
     have := (compS_mono cx post lp (forSt3 cx lp init cond body st) (by rw [forSt3_scopes]; exact hne1)).1
     simp only [pop_cnt] at hcnt'
     omega
   have hwf3 : Wf (forSt3 cx lp init cond body st) := by
-    have := compS_wf cx (.block body) (some (st.nl + 1, st.nl + 2)) { forSt1 cx lp init st with nl := (forCond cx lp init cond st).2 } (wf_nl hwf1 _)
+    have := compS_wf cx (.block body) (forEnt st :: lp) { forSt1 cx lp init st with nl := (forCond cx lp init cond st).2 } (wf_nl hwf1 _)
     rwa [compS_block] at this
   -- the body and what follows it, from the state where the body starts
+  have hl1 : (forSt1 cx lp init st).scopes.length = st.scopes.length + 1 := by
+    have := (compS_mono cx init lp (forSt0 st) (by simp)).2
+    simpa [forSt1] using this
+  have hsigB : sigOf (forEnt st :: lp) = (st.nextLabel, true) :: ls := by simp [sigOf, forEnt, ← hls]
+  have hszB : totalSz (forEnt st :: lp) = totalSz lp := by simp [totalSz, forEnt, LEntry.sz]
+  have hdeepB : Deepish (forEnt st :: lp) (forSt1 cx lp init st).scopes.length := by
+    intro e he
+    rcases List.mem_cons.mp he with rfl | he
+    · rw [hl1]; exact Nat.le_refl _
+    · rw [hl1]; exact Nat.le_succ_of_le (hdeep e he)
   have hgo : ∀ τ : State, τ.pc = pc0 + ci.length + 1 + cc.length → Same σ τ → VarsRel cx (forSt1 cx lp init st).scopes env τ.locals τ.args →
       (match exec fuel P env (.block body) with
-        | .ok (.norm e1) | .ok (.cont e1) => match exec fuel P e1 post with
-          | .ok (.norm e2) => iter fuel P e2 cond post body
+        | .ok (.norm e1) => (match exec fuel P e1 post with
+          | .ok (.norm e2) => iter fuel P e2 st.nextLabel cond post body
           | .ok _ => .stuck
-          | r => r
-        | .ok (.brk e1) => .ok (.norm e1)
+          | r => r)
+        | .ok (.cont l e1) => if mine l st.nextLabel then (match exec fuel P e1 post with
+            | .ok (.norm e2) => iter fuel P e2 st.nextLabel cond post body
+            | .ok _ => .stuck
+            | r => r) else .ok (.cont l e1)
+        | .ok (.brk l e1) => if mine l st.nextLabel then .ok (.norm e1) else .ok (.brk l e1)
         | r => r) = .panic → Faults C τ := by
     intro τ hτ hsτ hrelτ hgoeq
     have hdτ : τ.frames.length + fuel < 1024 := by rw [hsτ.frames]; exact hdep'
-    have hplB : Placed C τ.pc (compS cx (some (st.nl + 1, st.nl + 2)) (.block body)
+    have hplB : Placed C τ.pc (compS cx (forEnt st :: lp) (.block body)
         { forSt1 cx lp init st with nl := (forCond cx lp init cond st).2 }).1 := by
-      rw [compS_block, hτ]; show Placed C _ (compS cx (some (st.nl + 1, st.nl + 2)) body (forStB cx lp init cond st)).1
+      rw [compS_block, hτ]; show Placed C _ (compS cx (forEnt st :: lp) body (forStB cx lp init cond st)).1
       rw [hcb]; exact hPb
-    have hcntB : (compS cx (some (st.nl + 1, st.nl + 2)) (.block body)
+    have hcntB : (compS cx (forEnt st :: lp) (.block body)
         { forSt1 cx lp init st with nl := (forCond cx lp init cond st).2 }).2.cnt ≤ τ.locals.length := by
       rw [compS_block, hsτ.len]; exact hc3
     cases hb : exec fuel P env (.block body) with
     | ok ob =>
       rw [hb] at hgoeq
-      have hpostB := ok (.block body) (some (st.nl + 1, st.nl + 2)) 0 true
+      have hinvB : Inv (forEnt st :: lp) ((st.nextLabel, true) :: ls) { forSt1 cx lp init st with nl := (forCond cx lp init cond st).2 } τ :=
+        ⟨hsigB, hnl1, by rw [hszB, hsτ.stack]; exact hstk, by rw [hszB]; exact hfew⟩
+      have hpostB := ok (.block body) (forEnt st :: lp) ((st.nextLabel, true) :: ls)
         { forSt1 cx lp init st with nl := (forCond cx lp init cond st).2 } env τ ob
-        (by simpa [Allowed] using halb) (fun _ => ⟨_, _, rfl⟩) (Or.inr ⟨body, rfl⟩) hb hplB hrelτ (wf_nl hwf1 _) hcntB hdτ
+        (by simpa [Allowed] using halb) hinvB (Or.inr ⟨⟨body, rfl⟩, hdeepB⟩) hb hplB hrelτ (wf_nl hwf1 _) hcntB hdτ
       rw [compS_block] at hpostB
-      have hbl : (compS cx (some (st.nl + 1, st.nl + 2)) body ({ forSt1 cx lp init st with nl := (forCond cx lp init cond st).2 } : St).push).1 = cb := hcb
+      have hbl : (compS cx (forEnt st :: lp) body ({ forSt1 cx lp init st with nl := (forCond cx lp init cond st).2 } : St).push).1 = cb := hcb
       have hafter : ∀ (e1 : Env) (σ2 : State), Reach C τ σ2 → σ2.pc = pc0 + ci.length + 1 + cc.length + cb.length → Same τ σ2 →
           VarsRel cx (forSt1 cx lp init st).scopes e1 σ2.locals σ2.args →
           (match exec fuel P e1 post with
-            | .ok (.norm e2) => iter fuel P e2 cond post body
+            | .ok (.norm e2) => iter fuel P e2 st.nextLabel cond post body
             | .ok _ => .stuck
             | r => r) = .panic → Faults C τ := by
         intro e1 σ2 hr2 hpc2 hs2 hrel2 heq
@@ -1085,11 +1168,16 @@ theorem iterFault_succ (P : Prog) (C : Code) (cx : Ctx) (fuel : Nat)
           rw [this]; show _ ≤ σ2.locals.length; rw [hs2.len, hsτ.len]; exact hc3
         have hdP : ({ σ2 with pc := σ2.pc + 1 } : State).frames.length + fuel < 1024 := by
           show σ2.frames.length + fuel < 1024; rw [hs2.frames]; exact hdτ
+        have hnl3 : (forSt3 cx lp init cond body st).nextLabel = none :=
+          compS_noLabel cx body (forEnt st :: lp) (forStB cx lp init cond st) (allowed_labelsOK body _ halb) (Or.inl hnl1)
+        have hinvP : Inv lp ls (forSt3 cx lp init cond body st) { σ2 with pc := σ2.pc + 1 } :=
+          ⟨hls, hnl3, by show totalSz lp ≤ σ2.stack.length; rw [hs2.stack, hsτ.stack]; exact hstk, hfew⟩
+        have hdP' : Deep lp (forSt3 cx lp init cond body st).scopes.length := by rw [forSt3_scopes, hl1]; exact Deepish.succ hdeep
         cases hpo : exec fuel P e1 post with
         | ok op =>
           rw [hpo] at heq
-          have hpostP := ok post lp 1 false (forSt3 cx lp init cond body st) e1 { σ2 with pc := σ2.pc + 1 } op
-            (noDecl_allowed hnd false) (by intro h; cases h) (Or.inl (Nat.le_refl 1)) hpo hplP hrel2' hwf3 hcntP hdP
+          have hpostP := ok post lp ls (forSt3 cx lp init cond body st) e1 { σ2 with pc := σ2.pc + 1 } op
+            (noDecl_allowed hnd ls) hinvP (Or.inl hdP') hpo hplP hrel2' hwf3 hcntP hdP
           cases op with
           | norm e2 =>
             simp only at heq
@@ -1104,17 +1192,18 @@ theorem iterFault_succ (P : Prog) (C : Code) (cx : Ctx) (fuel : Nat)
                by show σ3.frames = σ.frames; rw [hs23.frames, hs2.frames, hsτ.frames],
                by show σ3.inited = σ.inited; rw [hs23.inited, hs2.inited, hsτ.inited],
                by show σ3.locals.length = σ.locals.length; rw [hs23.len, hs2.len, hsτ.len]⟩
-            have hrest := ihI init cond post body lp st e2 { σ3 with pc := pc0 + ci.length } pc0 halb hnd heq hp
+            have hrest := ihI init cond post body lp ls st e2 { σ3 with pc := pc0 + ci.length } pc0 halb hnd hls
+              (by show totalSz lp ≤ σ3.stack.length; rw [hsσ4.stack]; exact hstk) hfew hdeep hnl1 heq hp
               (by simp [hci]) hrel3 hwf (by show _ ≤ σ3.locals.length; rw [hsσ4.len]; exact hcnt)
               (by show σ3.frames.length + fuel < 1024; rw [hsσ4.frames]; exact hdep')
             exact Faults.of_reach (hr2.trans (hl.trans (hr3.trans (Reach.step hj)))) hrest
           | ret v => simp at heq
-          | brk e => simp at heq
-          | cont e => simp at heq
+          | brk l e => simp at heq
+          | cont l e => simp at heq
         | panic =>
           refine Faults.of_reach (hr2.trans hl) ?_
-          exact ih post lp false (forSt3 cx lp init cond body st) e1 { σ2 with pc := σ2.pc + 1 }
-            (noDecl_allowed hnd false) (by intro h; cases h) hpo hplP hrel2' hwf3 hcntP hdP
+          exact ih post lp ls (forSt3 cx lp init cond body st) e1 { σ2 with pc := σ2.pc + 1 }
+            (noDecl_allowed hnd ls) hinvP (Or.inl hdP') hpo hplP hrel2' hwf3 hcntP hdP
         | overflow => rw [hpo] at heq; simp at heq
         | stuck => rw [hpo] at heq; simp at heq
         | timeout => rw [hpo] at heq; simp at heq
@@ -1126,20 +1215,34 @@ theorem iterFault_succ (P : Prog) (C : Code) (cx : Ctx) (fuel : Nat)
         change VarsRel cx (forSt3 cx lp init cond body st).scopes e1 _ _ at hrel2
         rw [forSt3_scopes] at hrel2
         exact hafter e1 σ2 hr2 (by rw [hpc2, hτ]) hs2 hrel2 hgoeq
-      | cont e1 =>
+      | cont l e1 =>
         simp only at hgoeq
-        obtain ⟨b, c, hbc, hh⟩ := hpostB
-        cases hbc
-        obtain ⟨σ2, hr2, hpc2, hs2, hrel2⟩ := hh _ hLpost
-        have hrel2' : VarsRel cx (forSt1 cx lp init st).scopes e1 σ2.locals σ2.args := by
-          simpa [dropEnv] using hrel2
-        exact hafter e1 σ2 hr2 hpc2 hs2 hrel2' hgoeq
-      | brk e1 => simp at hgoeq
+        obtain ⟨dr, en, hfc, hfor, hh⟩ := hpostB
+        rw [findCont_cons l (forEnt st) lp 0 rfl] at hfc
+        have hname : (forEnt st).name = st.nextLabel := rfl
+        rw [hname] at hfc
+        by_cases hm : mine l st.nextLabel = true
+        · rw [if_pos hm] at hgoeq hfc
+          cases hfc
+          obtain ⟨σ2, hr2, hpc2, hs2, hrel2⟩ := hh _ hLpost
+          have hrel2' : VarsRel cx (forSt1 cx lp init st).scopes e1 σ2.locals σ2.args := by
+            have : (forSt1 cx lp init st).scopes.length - (forEnt st).scLen = 0 := by rw [hl1]; simp [forEnt]
+            simpa [this, dropEnv] using hrel2
+          exact hafter e1 σ2 hr2 hpc2 ⟨by simpa using hs2.stack, hs2.frames, hs2.inited, hs2.len⟩ hrel2' hgoeq
+        · rw [if_neg hm] at hgoeq
+          cases hgoeq
+      | brk l e1 =>
+        simp only at hgoeq
+        by_cases hm : mine l st.nextLabel = true
+        · rw [if_pos hm] at hgoeq; cases hgoeq
+        · rw [if_neg hm] at hgoeq; cases hgoeq
       | ret v => simp at hgoeq
     | panic =>
-      exact ih (.block body) (some (st.nl + 1, st.nl + 2)) true
+      exact ih (.block body) (forEnt st :: lp) ((st.nextLabel, true) :: ls)
         { forSt1 cx lp init st with nl := (forCond cx lp init cond st).2 } env τ
-        (by simpa [Allowed] using halb) (fun _ => ⟨_, _, rfl⟩) hb hplB hrelτ (wf_nl hwf1 _) hcntB hdτ
+        (by simpa [Allowed] using halb)
+        ⟨hsigB, hnl1, by rw [hszB, hsτ.stack]; exact hstk, by rw [hszB]; exact hfew⟩ (Or.inr ⟨⟨body, rfl⟩, hdeepB⟩)
+        hb hplB hrelτ (wf_nl hwf1 _) hcntB hdτ
     | overflow => rw [hb] at hgoeq; simp at hgoeq
     | stuck => rw [hb] at hgoeq; simp at hgoeq
     | timeout => rw [hb] at hgoeq; simp at hgoeq
@@ -1191,6 +1294,510 @@ theorem iterFault_succ (P : Prog) (C : Code) (cx : Ctx) (fuel : Nat)
     | stuck => rw [hcv] at hit; simp at hit
     | timeout => rw [hcv] at hit; simp at hit
 
+theorem loopFault_zero (P : Prog) (C : Code) (cx : Ctx) : LoopFault P C cx 0 := by
+  intro init cond post body lp ls st env σ _ _ _ _ _ _ _ hex
+  simp [execLoop] at hex
+
+theorem loopFault_succ (P : Prog) (C : Code) (cx : Ctx) (fuel : Nat)
+    (ih : StmtFault P C cx fuel) (ok : StmtFOK P C cx fuel) (ihI : IterFault P C cx fuel) : LoopFault P C cx (fuel + 1) := by
+  intro init cond post body lp ls st env σ hali hnd halb hls hstk hfew hdeep hex hp hrel hwf hcnt hdep
+  have hdep' : σ.frames.length + fuel < 1024 := by omega
+  simp only [execLoop] at hex
+  have hp' := hp
+  have hcnt' := hcnt
+  rw [compS_loop] at hp' hcnt'
+  simp only at hp' hcnt'
+  have hwf0 : Wf (forSt0 st) := wf_push (wf_mono (st' := { st with nl := st.nl + 3, nextLabel := none }) hwf rfl (Nat.le_refl _))
+  have hne1 : (forSt1 cx lp init st).scopes ≠ [] := by
+    have := (compS_mono cx init lp (forSt0 st) (by simp)).2
+    exact ne_nil_of_length this (by simp)
+  have hc1 : (forSt1 cx lp init st).cnt ≤ (forSt3 cx lp init cond body st).cnt := by
+    have := (compS_mono cx body (forEnt st :: lp) (forStB cx lp init cond st) (by simp)).1
+    simpa [forSt3] using this
+  have hc3 : (forSt3 cx lp init cond body st).cnt ≤ (compS cx lp post (forSt3 cx lp init cond body st)).2.cnt :=
+    (compS_mono cx post lp _ (by rw [forSt3_scopes]; exact hne1)).1
+  have hnl1 : (forSt1 cx lp init st).nextLabel = none :=
+    compS_noLabel cx init lp (forSt0 st) (allowed_labelsOK init ls hali) (Or.inl rfl)
+  have hpi : Placed C σ.pc (compS cx lp init (forSt0 st)).1 := hp'.left.left.left.left.left.left
+  have hcnti : (compS cx lp init (forSt0 st)).2.cnt ≤ σ.locals.length := by
+    have : (compS cx lp init (forSt0 st)).2.cnt = (forSt1 cx lp init st).cnt := rfl
+    simp only [pop_cnt] at hcnt'
+    omega
+  cases hi : exec fuel P env.push init with
+  | ok oi =>
+    rw [hi] at hex
+    have hposti := ok init lp ls (forSt0 st) env.push σ oi hali ⟨hls, rfl, hstk, hfew⟩ (Or.inl hdeep.succ) hi hpi
+      (varsRel_push hrel) hwf0 hcnti hdep'
+    cases oi with
+    | norm env1 =>
+      simp only at hex
+      obtain ⟨σ1, hr1, hpc1, hs1, hrel1⟩ := hposti
+      cases hit : iter fuel P env1 st.nextLabel cond post body with
+      | panic =>
+        refine Faults.of_reach hr1 ?_
+        exact ihI init cond post body lp ls st env1 σ1 σ.pc halb hnd hls (by rw [hs1.stack]; exact hstk) hfew hdeep hnl1 hit hp hpc1 hrel1 hwf
+          (by rw [hs1.len]; exact hcnt) (by rw [hs1.frames]; exact hdep')
+      | ok oo => rw [hit] at hex; cases oo <;> simp at hex
+      | overflow => rw [hit] at hex; simp at hex
+      | stuck => rw [hit] at hex; simp at hex
+      | timeout => rw [hit] at hex; simp at hex
+    | ret v => simp at hex
+    | brk l e => simp at hex
+    | cont l e => simp at hex
+  | panic =>
+    exact ih init lp ls (forSt0 st) env.push σ hali ⟨hls, rfl, hstk, hfew⟩ (Or.inl hdeep.succ) hi hpi
+      (varsRel_push hrel) hwf0 hcnti hdep'
+  | overflow => rw [hi] at hex; simp at hex
+  | stuck => rw [hi] at hex; simp at hex
+  | timeout => rw [hi] at hex; simp at hex
+
+end NeoModel.CompileProofs
+
+namespace NeoModel.CompileProofs
+open NeoModel.MiniVm NeoModel.MiniVm.Asm NeoModel.MiniGo NeoModel.Compile
+
+/-! ### `switch` statements that panic -/
+
+theorem eqOp_no_panic (ti : Bool) (x y : Val) : evalBin (eqOp ti) x y ≠ .panic := by
+  intro h
+  obtain ⟨hop, _⟩ := evalBin_panic h
+  cases ti <;> simp [eqOp] at hop
+
+theorem bodyFault_zero (P : Prog) (C : Code) (cx : Ctx) : BodyFault P C cx 0 := by
+  intro cl body rest ft lp ls st env σ pc0 ti tv _ _ _ hex
+  simp [execBody] at hex
+
+set_option maxHeartbeats 1000000 in
+theorem bodyFault_succ (P : Prog) (C : Code) (cx : Ctx) (fuel : Nat) (hn : (labelsOf C).Nodup)
+    (ih : StmtFault P C cx fuel) (ok : StmtFOK P C cx fuel) (ihB : BodyFault P C cx fuel) : BodyFault P C cx (fuel + 1) := by
+  intro cl body rest ft lp ls st env σ pc0 ti tv hshape hal hsw hex hp hpc hrel hwf hcnt hdep
+  have hdep' : σ.frames.length + fuel < 1024 := by omega
+  obtain ⟨ent, lp0, hlp, hisSw, heqn, hscl, hLend⟩ := hsw.ent
+  have hEndL : csEndL lp = ent.endL := by rw [hlp]; rfl
+  simp only [execBody] at hex
+  rcases hshape with ⟨e1, e2, rfl⟩ | ⟨rfl, rfl, rfl⟩
+  · have hal' : Allowed ls body ∧ AllowedCl ls rest := by simp only [AllowedCl] at hal; exact ⟨hal.1, hal.2.1⟩
+    rw [compS_case] at hp hcnt hLend
+    simp only [testsLen] at hpc
+    simp only at hp hcnt hLend
+    rw [hEndL] at hp hLend
+    generalize hT : (csTests cx lp e1 e2 st).1 = T at hp hpc hLend
+    generalize hcb : (compS cx lp body (csStB cx lp e1 e2 st)).1 = cb at hp hLend
+    generalize hcr : (compS cx lp rest (csStR cx lp e1 e2 body st)).1 = cr at hp hLend
+    generalize hfall : (if ft then [Item.ins (.jmp (st.sb + 1))] else ([] : Code)) = fall at hp hLend
+    have hlen : (T ++ [Item.lbl st.sb] ++ cb ++ fall ++ [Item.ins (.jmp ent.endL), Item.lbl st.nl] ++ cr).length =
+        T.length + 1 + cb.length + fall.length + 2 + cr.length := by simp; omega
+    rw [hlen] at hLend
+    have hPl : Placed C (pc0 + T.length) [Item.lbl st.sb] := hp.left.left.left.left.right
+    have hPb : Placed C (pc0 + T.length + 1) cb := hp.left.left.left.right.cast (by simp [Nat.add_assoc])
+    have hPf : Placed C (pc0 + T.length + 1 + cb.length) fall := hp.left.left.right.cast (by simp [Nat.add_assoc]; omega)
+    have hPr : Placed C (pc0 + T.length + 1 + cb.length + fall.length + 2) cr := hp.right.cast (by simp [Nat.add_assoc]; omega)
+    have hRsc : (csStR cx lp e1 e2 body st).scopes = st.scopes := csStR_scopes cx lp e1 e2 body st
+    have hmr := compS_mono cx rest lp (csStR cx lp e1 e2 body st) (by rw [hRsc]; exact hwf.nonempty)
+    have hcntB : (compS cx lp body (csStB cx lp e1 e2 st)).2.cnt ≤ σ.locals.length := by
+      have : (csStR cx lp e1 e2 body st).cnt = (compS cx lp body (csStB cx lp e1 e2 st)).2.cnt := rfl
+      omega
+    have h0 := skip_lbl (σ := σ) (hpc ▸ hPl)
+    have hinvB : Inv lp ls { st with nl := (csTests cx lp e1 e2 st).2 } { σ with pc := σ.pc + 1 } :=
+      ⟨hsw.sig, hsw.noLabel, hsw.stk, hsw.few⟩
+    have hplB : Placed C ({ σ with pc := σ.pc + 1 } : State).pc (compS cx lp (.block body) { st with nl := (csTests cx lp e1 e2 st).2 }).1 := by
+      rw [compS_block]; show Placed C (σ.pc + 1) (compS cx lp body (csStB cx lp e1 e2 st)).1; rw [hcb, hpc]; exact hPb
+    cases hb : exec fuel P env (.block body) with
+    | panic =>
+      exact Faults.of_reach h0 (ih (.block body) lp ls { st with nl := (csTests cx lp e1 e2 st).2 } env { σ with pc := σ.pc + 1 } hal'.1
+        hinvB (Or.inr ⟨⟨body, rfl⟩, hsw.deep⟩) hb hplB hrel (wf_nl hwf _) (by rw [compS_block]; exact hcntB) hdep')
+    | ok ob =>
+      rw [hb] at hex
+      have hpostB := ok (.block body) lp ls { st with nl := (csTests cx lp e1 e2 st).2 } env { σ with pc := σ.pc + 1 } ob hal'.1
+        hinvB (Or.inr ⟨⟨body, rfl⟩, hsw.deep⟩) hb hplB hrel (wf_nl hwf _) (by rw [compS_block]; exact hcntB) hdep'
+      rw [compS_block] at hpostB
+      have hscB : ((compS cx lp body ({ st with nl := (csTests cx lp e1 e2 st).2 } : St).push).2.pop).scopes = st.scopes := hRsc
+      simp only [hscB] at hpostB
+      have hpostB' := post_prefix h0 ⟨rfl, rfl, rfl, rfl⟩ hpostB
+      cases ob with
+      | norm e1' =>
+        simp only at hex
+        obtain ⟨σ2, hr2, hpc2, hs2, hrel2⟩ := hpostB'
+        have hpc2' : σ2.pc = pc0 + T.length + 1 + cb.length := by
+          rw [hpc2]; show σ.pc + 1 + (compS cx lp body (csStB cx lp e1 e2 st)).1.length = _; rw [hcb, hpc]
+        cases ft with
+        | false => simp at hex
+        | true =>
+          simp only [if_true] at hex hfall
+          subst hfall
+          have hnlR : (csStR cx lp e1 e2 body st).nextLabel = none :=
+            compS_noLabel cx body lp (csStB cx lp e1 e2 st) (allowed_labelsOK body ls hal'.1) (Or.inl hsw.noLabel)
+          have hwfR : Wf (csStR cx lp e1 e2 body st) := by
+            have := compS_wf cx (.block body) lp { st with nl := (csTests cx lp e1 e2 st).2 } (wf_nl hwf _)
+            rw [compS_block] at this
+            exact wf_mono this rfl (Nat.le_refl _)
+          have hswR : ∀ τ : State, Same σ τ →
+              SwCtx C lp ls (csStR cx lp e1 e2 body st) τ ti tv
+                (pc0 + T.length + 1 + cb.length + 1 + 2 + (compS cx lp rest (csStR cx lp e1 e2 body st)).1.length) := by
+            intro τ hτ
+            obtain ⟨rs, hrs⟩ := hsw.tag
+            refine ⟨hsw.sig, ⟨ent, lp0, hlp, hisSw, heqn, by rw [hRsc]; exact hscl, ?_⟩, ⟨rs, by rw [hτ.stack]; exact hrs⟩, hnlR,
+              by rw [hτ.stack]; exact hsw.stk, hsw.few, by rw [hRsc]; exact hsw.deep⟩
+            rw [hcr]; simpa [Nat.add_assoc] using hLend
+          have hrelR : VarsRel cx (csStR cx lp e1 e2 body st).scopes e1' σ2.locals σ2.args := by rw [hRsc]; exact hrel2
+          have hcntR : (compS cx lp rest (csStR cx lp e1 e2 body st)).2.cnt ≤ σ2.locals.length := by rw [hs2.len]; exact hcnt
+          have hdepR : σ2.frames.length + fuel < 1024 := by rw [hs2.frames]; exact hdep'
+          have hPr' : Placed C (pc0 + T.length + 1 + cb.length + 1 + 2) (compS cx lp rest (csStR cx lp e1 e2 body st)).1 := by
+            rw [hcr]; simpa using hPr
+          cases rest with
+          | caseS e1r e2r br fr rr =>
+            simp only at hex
+            have hPr'' := hPr'
+            rw [compS_case] at hPr''
+            simp only at hPr''
+            have hLn : findLabel C (st.sb + 1) =
+                some (pc0 + T.length + 1 + cb.length + 1 + 2 + (csTests cx lp e1r e2r (csStR cx lp e1 e2 body st)).1.length) :=
+              (hPr''.left.left.left.left.right).label hn
+            have hj := step_jmp (s := σ2) (by rw [hpc2']; simpa using hPf.head) hLn
+            have hrec := ihB (.caseS e1r e2r br fr rr) br rr fr lp ls (csStR cx lp e1 e2 body st) e1'
+              { σ2 with pc := pc0 + T.length + 1 + cb.length + 1 + 2 + (csTests cx lp e1r e2r (csStR cx lp e1 e2 body st)).1.length }
+              (pc0 + T.length + 1 + cb.length + 1 + 2) ti tv (Or.inl ⟨_, _, rfl⟩) hal'.2
+              (hswR _ ⟨hs2.stack, hs2.frames, hs2.inited, hs2.len⟩) hex hPr' rfl hrelR hwfR hcntR hdepR
+            exact Faults.of_reach (hr2.trans (Reach.step hj)) hrec
+          | defaultS br =>
+            simp only at hex
+            have hPr'' := hPr'
+            rw [compS_default] at hPr''
+            simp only at hPr''
+            have hLn : findLabel C (st.sb + 1) = some (pc0 + T.length + 1 + cb.length + 1 + 2) :=
+              (hPr''.left.left).label hn
+            have hj := step_jmp (s := σ2) (by rw [hpc2']; simpa using hPf.head) hLn
+            have hrec := ihB (.defaultS br) br .skip false lp ls (csStR cx lp e1 e2 body st) e1'
+              { σ2 with pc := pc0 + T.length + 1 + cb.length + 1 + 2 }
+              (pc0 + T.length + 1 + cb.length + 1 + 2) ti tv (Or.inr ⟨rfl, rfl, rfl⟩) hal'.2
+              (hswR _ ⟨hs2.stack, hs2.frames, hs2.inited, hs2.len⟩) hex hPr' (by simp [testsLen]) hrelR hwfR hcntR hdepR
+            exact Faults.of_reach (hr2.trans (Reach.step hj)) hrec
+          | _ => simp at hex
+      | ret v => simp at hex
+      | brk l e' => simp at hex
+      | cont l e' => simp at hex
+    | overflow => rw [hb] at hex; simp at hex
+    | stuck => rw [hb] at hex; simp at hex
+    | timeout => rw [hb] at hex; simp at hex
+  · have hal' : Allowed ls body := by simpa only [AllowedCl] using hal
+    rw [compS_default] at hp hcnt
+    simp only [testsLen, Nat.add_zero] at hpc
+    simp only at hp hcnt
+    generalize hcb : (compS cx lp body (dfStB st)).1 = cb at hp
+    have hPl : Placed C pc0 [Item.lbl st.sb] := hp.left.left
+    have hPb : Placed C (pc0 + 1) cb := hp.left.right.cast (by simp)
+    have h0 := skip_lbl (σ := σ) (hpc ▸ hPl)
+    cases hb : exec fuel P env (.block body) with
+    | panic =>
+      exact Faults.of_reach h0 (ih (.block body) lp ls { st with nl := st.nl + 1 } env { σ with pc := σ.pc + 1 } hal'
+        ⟨hsw.sig, hsw.noLabel, hsw.stk, hsw.few⟩ (Or.inr ⟨⟨body, rfl⟩, hsw.deep⟩) hb
+        (by rw [compS_block]; show Placed C (σ.pc + 1) (compS cx lp body (dfStB st)).1; rw [hcb, hpc]; exact hPb)
+        hrel (wf_nl hwf _) (by rw [compS_block]; exact hcnt) hdep')
+    | ok ob => rw [hb] at hex; cases ob <;> simp at hex
+    | overflow => rw [hb] at hex; simp at hex
+    | stuck => rw [hb] at hex; simp at hex
+    | timeout => rw [hb] at hex; simp at hex
+
+end NeoModel.CompileProofs
+
+namespace NeoModel.CompileProofs
+open NeoModel.MiniVm NeoModel.MiniVm.Asm NeoModel.MiniGo NeoModel.Compile
+
+/-- a case expression that panics: DUP, then the expression FAULTs. -/
+theorem case_test_fault {P : Prog} {C : Code} {cx : Ctx} {sc : Scopes} {env : Env} {fuel : Nat} {e : Expr} {nl : Nat} {σ : State}
+    {tv : Val} {rs : List Val} {tail : Code}
+    (ihE : ExprFault P C cx sc env fuel)
+    (hp : Placed C σ.pc ([Item.ins .dup] ++ (compE cx sc e .val nl).1 ++ tail))
+    (hs : σ.stack = tv :: rs) (hev : evalE fuel P env e = .panic)
+    (hrel : VarsRel cx sc env σ.locals σ.args) (hdep : σ.frames.length + fuel < 1024) : Faults C σ := by
+  have h1 := run_data (C := C) (σ := σ) (op := .dup) (stk := tv :: tv :: rs) (loc := σ.locals) (ar := σ.args)
+    hp.left.left.head rfl (by simp [stepData, hs])
+  exact Faults.of_reach h1 (ihE e .val nl { σ with pc := σ.pc + 1, stack := tv :: tv :: rs } hev (by simpa using hp.left.right) hrel hdep (nj C))
+
+theorem casesFault_zero (P : Prog) (C : Code) (cx : Ctx) : CasesFault P C cx 0 := by
+  intro cl lp ls st env σ ti tv _ _ hex
+  simp [execCases] at hex
+
+set_option maxHeartbeats 1000000 in
+theorem casesFault_succ (P : Prog) (C : Code) (cx : Ctx) (fuel : Nat) (hn : (labelsOf C).Nodup)
+    (ihE : ∀ sc env, ExprFault P C cx sc env fuel) (okE : ∀ sc env, ExprFOK P C cx sc env fuel)
+    (ihB : BodyFault P C cx fuel) (ihC : CasesFault P C cx fuel) : CasesFault P C cx (fuel + 1) := by
+  intro cl lp ls st env σ ti tv hal hsw hex hp hrel hwf hcnt hdep
+  have hdep' : σ.frames.length + fuel < 1024 := by omega
+  obtain ⟨ent, lp0, hlp, hisSw, heqn, hscl, hLend⟩ := hsw.ent
+  obtain ⟨rs, hrs⟩ := hsw.tag
+  simp only [execCases] at hex
+  cases cl with
+  | skip => simp at hex
+  | defaultS body =>
+    simp only at hex
+    exact ihB (.defaultS body) body .skip false lp ls st env σ σ.pc ti tv (Or.inr ⟨rfl, rfl, rfl⟩) hal hsw hex hp
+      (by simp [testsLen]) hrel hwf hcnt hdep'
+  | caseS e1 e2 body ft rest =>
+    have hal' : Allowed ls body ∧ AllowedCl ls rest := by simp only [AllowedCl] at hal; exact ⟨hal.1, hal.2.1⟩
+    simp only at hex
+    have hp' := hp
+    rw [compS_case] at hp'
+    simp only at hp'
+    have hTlen : (compS cx lp (.caseS e1 e2 body ft rest) st).1.length =
+        (csTests cx lp e1 e2 st).1.length + 1 + (compS cx lp body (csStB cx lp e1 e2 st)).1.length +
+          (if ft then 1 else 0) + 2 + (compS cx lp rest (csStR cx lp e1 e2 body st)).1.length := by
+      rw [compS_case]; cases ft <;> simp [Nat.add_assoc] <;> omega
+    have hPT : Placed C σ.pc (csTests cx lp e1 e2 st).1 := hp'.left.left.left.left.left
+    have hPl : Placed C (σ.pc + (csTests cx lp e1 e2 st).1.length) [Item.lbl st.sb] := hp'.left.left.left.left.right
+    have hLsb : findLabel C st.sb = some (σ.pc + (csTests cx lp e1 e2 st).1.length) := hPl.label hn
+    have hPe : Placed C (σ.pc + ((csTests cx lp e1 e2 st).1.length + 1 + (compS cx lp body (csStB cx lp e1 e2 st)).1.length +
+        (if ft then 1 else 0)) + 1) [Item.lbl st.nl] := by
+      have := hp'.left.right.tail
+      refine this.cast ?_
+      cases ft <;> simp [Nat.add_assoc] <;> omega
+    have hLnl : findLabel C st.nl = some (σ.pc + ((csTests cx lp e1 e2 st).1.length + 1 + (compS cx lp body (csStB cx lp e1 e2 st)).1.length +
+        (if ft then 1 else 0)) + 1) := hPe.label hn
+    have hPr : Placed C (σ.pc + ((csTests cx lp e1 e2 st).1.length + 1 + (compS cx lp body (csStB cx lp e1 e2 st)).1.length +
+        (if ft then 1 else 0)) + 2) (compS cx lp rest (csStR cx lp e1 e2 body st)).1 := by
+      refine hp'.right.cast ?_
+      cases ft <;> simp [Nat.add_assoc] <;> omega
+    have hRsc : (csStR cx lp e1 e2 body st).scopes = st.scopes := csStR_scopes cx lp e1 e2 body st
+    have hceq : csEq lp = tokenOp (eqOp ti) := csEq_token hlp heqn
+    have hbody : ∀ τ : State, τ.pc = σ.pc + (csTests cx lp e1 e2 st).1.length → Same σ τ → τ.locals = σ.locals → τ.args = σ.args →
+        Reach C σ τ → execBody fuel P env body ft rest = .panic → Faults C σ := by
+      intro τ hτ hsτ hloc har hrτ hexb
+      have hswτ : SwCtx C lp ls st τ ti tv (σ.pc + (compS cx lp (.caseS e1 e2 body ft rest) st).1.length) :=
+        ⟨hsw.sig, ⟨ent, lp0, hlp, hisSw, heqn, hscl, hLend⟩, ⟨rs, by rw [hsτ.stack]; exact hrs⟩, hsw.noLabel,
+          by rw [hsτ.stack]; exact hsw.stk, hsw.few, hsw.deep⟩
+      exact Faults.of_reach hrτ (ihB (.caseS e1 e2 body ft rest) body rest ft lp ls st env τ σ.pc ti tv (Or.inl ⟨_, _, rfl⟩) hal hswτ hexb hp
+        (by simp [testsLen, hτ]) (by rw [hloc, har]; exact hrel) hwf (by rw [hsτ.len]; exact hcnt) (by rw [hsτ.frames]; exact hdep'))
+    have hnext : ∀ τ : State, τ.pc = σ.pc + ((csTests cx lp e1 e2 st).1.length + 1 + (compS cx lp body (csStB cx lp e1 e2 st)).1.length +
+          (if ft then 1 else 0)) + 1 → Same σ τ → τ.locals = σ.locals → τ.args = σ.args →
+        Reach C σ τ → execCases fuel P env tv ti rest = .panic → Faults C σ := by
+      intro τ hτ hsτ hloc har hrτ hexr
+      have hl := skip_lbl (σ := τ) (hτ ▸ hPe)
+      have hnlR : (csStR cx lp e1 e2 body st).nextLabel = none :=
+        compS_noLabel cx body lp (csStB cx lp e1 e2 st) (allowed_labelsOK body ls hal'.1) (Or.inl hsw.noLabel)
+      have hwfR : Wf (csStR cx lp e1 e2 body st) := by
+        have := compS_wf cx (.block body) lp { st with nl := (csTests cx lp e1 e2 st).2 } (wf_nl hwf _)
+        rw [compS_block] at this
+        exact wf_mono this rfl (Nat.le_refl _)
+      have hpcEq : τ.pc + 1 + (compS cx lp rest (csStR cx lp e1 e2 body st)).1.length =
+          σ.pc + (compS cx lp (.caseS e1 e2 body ft rest) st).1.length := by rw [hτ, hTlen]; omega
+      have hswR : SwCtx C lp ls (csStR cx lp e1 e2 body st) { τ with pc := τ.pc + 1 } ti tv
+          (τ.pc + 1 + (compS cx lp rest (csStR cx lp e1 e2 body st)).1.length) :=
+        ⟨hsw.sig, ⟨ent, lp0, hlp, hisSw, heqn, by rw [hRsc]; exact hscl, by rw [hpcEq]; exact hLend⟩,
+          ⟨rs, by show τ.stack = _; rw [hsτ.stack]; exact hrs⟩, hnlR,
+          by show _ ≤ τ.stack.length; rw [hsτ.stack]; exact hsw.stk, hsw.few, by rw [hRsc]; exact hsw.deep⟩
+      have := ihC rest lp ls (csStR cx lp e1 e2 body st) env { τ with pc := τ.pc + 1 } ti tv hal'.2 hswR hexr
+        (by show Placed C (τ.pc + 1) _; rw [hτ]; exact hPr.cast (by omega))
+        (by rw [hRsc]; show VarsRel cx st.scopes env τ.locals τ.args; rw [hloc, har]; exact hrel) hwfR
+        (by show _ ≤ τ.locals.length; rw [hsτ.len]; rw [compS_case] at hcnt; exact hcnt)
+        (by show τ.frames.length + fuel < 1024; rw [hsτ.frames]; exact hdep')
+      exact Faults.of_reach (hrτ.trans hl) this
+    cases hv1 : evalE fuel P env e1 with
+    | panic =>
+      cases e2 with
+      | none =>
+        have hT : (csTests cx lp e1 none st).1 =
+            [Item.ins .dup] ++ (compE cx st.scopes e1 .val (st.nl + 1)).1 ++ [.ins (tokenOp (eqOp ti)), .ins (.jmpIfNot st.nl)] := by
+          simp [csTests, hceq]
+        rw [hT] at hPT
+        exact case_test_fault (ihE st.scopes env) hPT hrs hv1 hrel hdep'
+      | some e2 =>
+        have hT : (csTests cx lp e1 (some e2) st).1 =
+            [Item.ins .dup] ++ (compE cx st.scopes e1 .val (st.nl + 1)).1 ++ ([.ins (tokenOp (eqOp ti)), .ins (.jmpIf st.sb)] ++
+            ([Item.ins .dup] ++ (compE cx st.scopes e2 .val (compE cx st.scopes e1 .val (st.nl + 1)).2).1 ++ [.ins (tokenOp (eqOp ti)),
+              .ins (.jmpIfNot st.nl)])) := by
+          simp [csTests, hceq]
+        rw [hT] at hPT
+        exact case_test_fault (ihE st.scopes env) hPT hrs hv1 hrel hdep'
+    | ok v1 =>
+      rw [hv1] at hex
+      simp only at hex
+      cases hb1 : evalBin (eqOp ti) tv v1 with
+      | panic => exact absurd hb1 (eqOp_no_panic ti tv v1)
+      | ok r1 =>
+        rw [hb1] at hex
+        cases r1 with
+        | bool b1 =>
+          cases e2 with
+          | none =>
+            have hT : (csTests cx lp e1 none st).1 =
+                ([Item.ins .dup] ++ (compE cx st.scopes e1 .val (st.nl + 1)).1 ++ [.ins (tokenOp (eqOp ti))]) ++ [.ins (.jmpIfNot st.nl)] := by
+              simp [csTests, hceq]
+            rw [hT] at hPT
+            generalize hl1 : (compE cx st.scopes e1 .val (st.nl + 1)).1.length = l1 at hPT
+            have hTl : (csTests cx lp e1 none st).1.length = 1 + l1 + 1 + 1 := by rw [hT]; simp [hl1]; omega
+            have htest := case_test (okE st.scopes env) (σ := σ) hPT.left hrs hv1 hb1 hrel hdep'
+            rw [hl1] at htest
+            have hPj : Placed C (σ.pc + 1 + l1 + 1) [Item.ins (.jmpIfNot st.nl)] := hPT.right.cast (by simp [hl1]; omega)
+            have hj := step_jmpIfNot (s := { σ with pc := σ.pc + 1 + l1 + 1, stack := .bool b1 :: tv :: rs }) (v := .bool b1) (r := tv :: rs)
+              hPj.head hLnl rfl
+            cases b1 with
+            | true =>
+              simp only at hex
+              simp only [Val.toBool, if_true] at hj
+              exact hbody { σ with pc := σ.pc + 1 + l1 + 1 + 1, stack := tv :: rs } (by simp [hTl]; omega) ⟨by simp [hrs], rfl, rfl, rfl⟩ rfl rfl
+                (htest.trans (Reach.step hj)) hex
+            | false =>
+              simp only at hex
+              simp only [Val.toBool, Bool.false_eq_true, if_false] at hj
+              exact hnext { σ with pc := σ.pc + ((csTests cx lp e1 none st).1.length + 1 + (compS cx lp body (csStB cx lp e1 none st)).1.length +
+                  (if ft then 1 else 0)) + 1, stack := tv :: rs } rfl ⟨by simp [hrs], rfl, rfl, rfl⟩ rfl rfl (htest.trans (Reach.step hj)) hex
+          | some e2 =>
+            have hT : (csTests cx lp e1 (some e2) st).1 =
+                (([Item.ins .dup] ++ (compE cx st.scopes e1 .val (st.nl + 1)).1 ++ [.ins (tokenOp (eqOp ti))]) ++ [.ins (.jmpIf st.sb)]) ++
+                (([Item.ins .dup] ++ (compE cx st.scopes e2 .val (compE cx st.scopes e1 .val (st.nl + 1)).2).1 ++ [.ins (tokenOp (eqOp ti))]) ++
+                  [.ins (.jmpIfNot st.nl)]) := by
+              simp [csTests, hceq]
+            rw [hT] at hPT
+            generalize hl1 : (compE cx st.scopes e1 .val (st.nl + 1)).1.length = l1 at hPT
+            generalize hl2 : (compE cx st.scopes e2 .val (compE cx st.scopes e1 .val (st.nl + 1)).2).1.length = l2 at hPT
+            have hTl : (csTests cx lp e1 (some e2) st).1.length = (1 + l1 + 1 + 1) + (1 + l2 + 1 + 1) := by
+              rw [hT]; simp [hl1, hl2]; omega
+            have htest := case_test (okE st.scopes env) (σ := σ) hPT.left.left hrs hv1 hb1 hrel hdep'
+            rw [hl1] at htest
+            have hPj : Placed C (σ.pc + 1 + l1 + 1) [Item.ins (.jmpIf st.sb)] := hPT.left.right.cast (by simp [hl1]; omega)
+            have hj := step_jmpIf (s := { σ with pc := σ.pc + 1 + l1 + 1, stack := .bool b1 :: tv :: rs }) (v := .bool b1) (r := tv :: rs)
+              hPj.head hLsb rfl
+            cases b1 with
+            | true =>
+              simp only at hex
+              simp only [Val.toBool, if_true] at hj
+              exact hbody { σ with pc := σ.pc + (csTests cx lp e1 (some e2) st).1.length, stack := tv :: rs } rfl ⟨by simp [hrs], rfl, rfl, rfl⟩ rfl rfl
+                (htest.trans (Reach.step hj)) hex
+            | false =>
+              simp only at hex
+              simp only [Val.toBool, Bool.false_eq_true, if_false] at hj
+              have hP2 : Placed C (σ.pc + 1 + l1 + 1 + 1)
+                  (([Item.ins .dup] ++ (compE cx st.scopes e2 .val (compE cx st.scopes e1 .val (st.nl + 1)).2).1 ++ [.ins (tokenOp (eqOp ti))]) ++
+                    [.ins (.jmpIfNot st.nl)]) := hPT.right.cast (by simp [hl1, Nat.add_assoc]; omega)
+              cases hv2 : evalE fuel P env e2 with
+              | panic =>
+                refine Faults.of_reach (htest.trans (Reach.step hj)) ?_
+                exact case_test_fault (ihE st.scopes env) (σ := { σ with pc := σ.pc + 1 + l1 + 1 + 1, stack := tv :: rs })
+                  (by simpa using hP2) rfl hv2 hrel hdep'
+              | ok v2 =>
+                rw [hv2] at hex
+                simp only at hex
+                cases hb2 : evalBin (eqOp ti) tv v2 with
+                | panic => exact absurd hb2 (eqOp_no_panic ti tv v2)
+                | ok r2 =>
+                  rw [hb2] at hex
+                  cases r2 with
+                  | bool b2 =>
+                    have htest2 := case_test (okE st.scopes env)
+                      (σ := { σ with pc := σ.pc + 1 + l1 + 1 + 1, stack := tv :: rs }) hP2.left rfl hv2 hb2 hrel hdep'
+                    rw [hl2] at htest2
+                    have hPj2 : Placed C (σ.pc + 1 + l1 + 1 + 1 + 1 + l2 + 1) [Item.ins (.jmpIfNot st.nl)] :=
+                      hP2.right.cast (by simp [hl2]; omega)
+                    have hj2 := step_jmpIfNot (s := { σ with pc := σ.pc + 1 + l1 + 1 + 1 + 1 + l2 + 1, stack := .bool b2 :: tv :: rs })
+                      (v := .bool b2) (r := tv :: rs) hPj2.head hLnl rfl
+                    have hpre := htest.trans ((Reach.step hj).trans (htest2.trans (Reach.step hj2)))
+                    cases b2 with
+                    | true =>
+                      simp only at hex
+                      simp only [Val.toBool, if_true] at hj2 hpre
+                      exact hbody { σ with pc := σ.pc + 1 + l1 + 1 + 1 + 1 + l2 + 1 + 1, stack := tv :: rs } (by simp [hTl]; omega)
+                        ⟨by simp [hrs], rfl, rfl, rfl⟩ rfl rfl hpre hex
+                    | false =>
+                      simp only at hex
+                      simp only [Val.toBool, Bool.false_eq_true, if_false] at hj2 hpre
+                      exact hnext { σ with pc := σ.pc + ((csTests cx lp e1 (some e2) st).1.length + 1 + (compS cx lp body (csStB cx lp e1 (some e2) st)).1.length +
+                          (if ft then 1 else 0)) + 1, stack := tv :: rs } rfl ⟨by simp [hrs], rfl, rfl, rfl⟩ rfl rfl hpre hex
+                  | int n => simp at hex
+                  | null => simp at hex
+                | overflow => rw [hb2] at hex; simp at hex
+                | stuck => rw [hb2] at hex; simp at hex
+                | timeout => rw [hb2] at hex; simp at hex
+              | overflow => rw [hv2] at hex; simp at hex
+              | stuck => rw [hv2] at hex; simp at hex
+              | timeout => rw [hv2] at hex; simp at hex
+        | int n => simp at hex
+        | null => simp at hex
+      | overflow => rw [hb1] at hex; simp at hex
+      | stuck => rw [hb1] at hex; simp at hex
+      | timeout => rw [hb1] at hex; simp at hex
+    | overflow => rw [hv1] at hex; simp at hex
+    | stuck => rw [hv1] at hex; simp at hex
+    | timeout => rw [hv1] at hex; simp at hex
+  | _ => simp [AllowedCl] at hal
+
+theorem switchFault_zero (P : Prog) (C : Code) (cx : Ctx) : SwitchFault P C cx 0 := by
+  intro tag ti cl lp ls st env σ _ _ _ _ _ hex
+  simp [execSwitch] at hex
+
+theorem switchFault_succ (P : Prog) (C : Code) (cx : Ctx) (fuel : Nat) (hn : (labelsOf C).Nodup)
+    (ihE : ∀ sc env, ExprFault P C cx sc env fuel) (okE : ∀ sc env, ExprFOK P C cx sc env fuel)
+    (ihC : CasesFault P C cx fuel) : SwitchFault P C cx (fuel + 1) := by
+  intro tag ti cl lp ls st env σ hsw3 hal hls hstk hdeep hex hp hrel hwf hcnt hdep
+  have hdep' : σ.frames.length + fuel < 1024 := by omega
+  simp only [execSwitch] at hex
+  rw [compS_switch] at hp hcnt
+  simp only at hp hcnt
+  generalize hT : (swTag cx tag st).1 = T at hp
+  generalize hcc : (compS cx (swEnt cx tag ti st :: lp) cl (swSt1 cx tag cl st)).1 = cc at hp
+  have hPT : Placed C σ.pc T := hp.left.left
+  have hPc : Placed C (σ.pc + T.length) cc := hp.left.right
+  have hPe : Placed C (σ.pc + T.length + cc.length) [Item.lbl (swTag cx tag st).2, Item.ins .drop] := hp.right.cast (by simp [Nat.add_assoc])
+  have hLend : findLabel C (swTag cx tag st).2 = some (σ.pc + T.length + cc.length) := hPe.label hn
+  have hfew : totalSz lp + 1 ≤ 3 := by rw [totalSz_sig, hls]; omega
+  have hszE : totalSz (swEnt cx tag ti st :: lp) = totalSz lp + 1 := by simp [totalSz, swEnt, LEntry.sz]; omega
+  have hrun : ∀ (tv : Val) (σ1 : State), Reach C σ σ1 → σ1.pc = σ.pc + T.length → σ1.stack = tv :: σ.stack → σ1.frames = σ.frames →
+      σ1.locals = σ.locals → σ1.args = σ.args →
+      (match execCases fuel P env.push tv ti cl with
+        | .ok (.norm e') => .ok (.norm e'.pop)
+        | .ok (.brk l e') => if mine l st.nextLabel then .ok (.norm e'.pop) else .ok (.brk l e'.pop)
+        | .ok (.cont l e') => .ok (.cont l e'.pop)
+        | r => r) = Res.panic → Faults C σ := by
+    intro tv σ1 hr1 hpc1 hst1 hfr1 hloc1 har1 heq
+    have hswc : SwCtx C (swEnt cx tag ti st :: lp) ((st.nextLabel, false) :: ls) (swSt1 cx tag cl st) σ1 ti tv
+        (σ1.pc + (compS cx (swEnt cx tag ti st :: lp) cl (swSt1 cx tag cl st)).1.length) := by
+      refine ⟨by simp [sigOf, swEnt, ← hls], ⟨swEnt cx tag ti st, lp, rfl, rfl, rfl, by simp [swEnt], ?_⟩, ⟨σ.stack, hst1⟩, rfl,
+        by rw [hszE, hst1]; simp; exact hstk, by rw [hszE]; exact hfew, ?_⟩
+      · rw [hcc, hpc1]; exact hLend
+      · intro e he
+        rcases List.mem_cons.mp he with rfl | he
+        · simp [swEnt]
+        · simp only [swSt1_scopes, List.length_cons]; exact Nat.le_succ_of_le (hdeep e he)
+    cases hc : execCases fuel P env.push tv ti cl with
+    | panic =>
+      refine Faults.of_reach hr1 ?_
+      exact ihC cl (swEnt cx tag ti st :: lp) ((st.nextLabel, false) :: ls) (swSt1 cx tag cl st) env.push σ1 ti tv hal hswc hc
+        (by rw [hcc, hpc1]; exact hPc) (by rw [hloc1, har1]; exact varsRel_push hrel) (wf_mono (wf_push hwf) rfl (Nat.le_refl _))
+        (by rw [hloc1]; simpa using hcnt) (by rw [hfr1]; exact hdep')
+    | ok oc =>
+      rw [hc] at heq
+      cases oc with
+      | norm e' => simp at heq
+      | ret v => simp at heq
+      | brk l e' => simp only at heq; split at heq <;> cases heq
+      | cont l e' => simp at heq
+    | overflow => rw [hc] at heq; simp at heq
+    | stuck => rw [hc] at heq; simp at heq
+    | timeout => rw [hc] at heq; simp at heq
+  cases tag with
+  | none =>
+    simp only at hex
+    have hTn : T = [Item.ins .pushT] := by rw [← hT]; rfl
+    subst hTn
+    have h1 := run_data (C := C) (σ := σ) (op := .pushT) (stk := .bool true :: σ.stack) (loc := σ.locals) (ar := σ.args)
+      hPT.head rfl (by simp [stepData])
+    exact hrun (.bool true) _ h1 (by simp) rfl rfl rfl rfl hex
+  | some e =>
+    simp only at hex
+    have hTs : T = (compE cx st.push.scopes e .val st.nl).1 := by rw [← hT]; rfl
+    cases hv : evalE fuel P env.push e with
+    | panic =>
+      exact (ihE st.push.scopes env.push) e .val st.nl σ hv (by rw [← hTs]; exact hPT) (varsRel_push hrel) hdep' (nj C)
+    | ok tv =>
+      rw [hv] at hex
+      simp only at hex
+      have h1 := (okE st.push.scopes env.push) e .val st.nl σ tv hv (by rw [← hTs]; exact hPT) (varsRel_push hrel) hdep'
+      simp only [Post] at h1
+      rw [← hTs] at h1
+      exact hrun tv _ h1 rfl rfl rfl rfl rfl hex
+    | overflow => rw [hv] at hex; simp at hex
+    | stuck => rw [hv] at hex; simp at hex
+    | timeout => rw [hv] at hex; simp at hex
+
 end NeoModel.CompileProofs
 
 namespace NeoModel.CompileProofs
@@ -1198,7 +1805,7 @@ open NeoModel.MiniVm NeoModel.MiniVm.Asm NeoModel.MiniGo NeoModel.Compile
 
 /-- CALL of a function whose body panics: the callee's frame is pushed, its body FAULTs. -/
 theorem call_run_fault {P : Prog} {C : Code} {fuel : Nat} (hpc : ProgCode C P)
-    (ihS : ∀ cx : Ctx, cx.funcs = funcTable P → StmtFault P C cx fuel) (hall : ∀ d ∈ P, Allowed false d.body)
+    (ihS : ∀ cx : Ctx, cx.funcs = funcTable P → StmtFault P C cx fuel) (hall : ∀ d ∈ P, Allowed [] d.body)
     {f : String} {d : FuncDecl} {vs rest : List Val} {σ : State}
     (hfind : P.find f = some d) (hlen : d.params.length = vs.length)
     (hex : exec fuel P { frames := [[]], args := d.params.zip vs } (.block d.body) = .panic)
@@ -1208,11 +1815,11 @@ theorem call_run_fault {P : Prog} {C : Code} {fuel : Nat} (hpc : ProgCode C P)
   obtain ⟨pc0, nl, hp⟩ := hpc.funcs i d hi
   have hmem : d ∈ P := List.mem_of_getElem? hi
   have hcode : (compFunc (funcTable P) d i nl).1 =
-      [Item.lbl i, initSlotItem (compS { funcs := funcTable P, args := d.params } none (.block d.body) { nl := nl, cnt := 0, scopes := [[]] }).2.cnt d.params.length] ++
-        (compS { funcs := funcTable P, args := d.params } none (.block d.body) { nl := nl, cnt := 0, scopes := [[]] }).1 ++
+      [Item.lbl i, initSlotItem (compS { funcs := funcTable P, args := d.params } [] (.block d.body) { nl := nl, cnt := 0, scopes := [[]] }).2.cnt d.params.length] ++
+        (compS { funcs := funcTable P, args := d.params } [] (.block d.body) { nl := nl, cnt := 0, scopes := [[]] }).1 ++
         (if lastIsRet d.body then [] else [Item.ins .ret]) := rfl
   rw [hcode] at hp
-  generalize hN : (compS { funcs := funcTable P, args := d.params } none (.block d.body) { nl := nl, cnt := 0, scopes := [[]] }).2.cnt = N at hp
+  generalize hN : (compS { funcs := funcTable P, args := d.params } [] (.block d.body) { nl := nl, cnt := 0, scopes := [[]] }).2.cnt = N at hp
   have hlbl : findLabel C i = some pc0 := hp.left.left.label hpc.nodup
   rw [hlab] at hf
   have hcall := step_call (s := σ) hf hlbl (by omega)
@@ -1223,14 +1830,15 @@ theorem call_run_fault {P : Prog} {C : Code} {fuel : Nat} (hpc : ProgCode C P)
   have hrel : VarsRel { funcs := funcTable P, args := d.params } [[]] { frames := [[]], args := d.params.zip vs } (List.replicate N .null) vs :=
     ⟨by simp [FramesRel, FrameRel], zip_fst _ _ hlen, zip_snd _ _ hlen⟩
   have hwf : Wf { nl := nl, cnt := 0, scopes := [[]] } := ⟨by simp [slotsOf], by simp [slotsOf], by simp⟩
-  have hbody := ihS { funcs := funcTable P, args := d.params } rfl (.block d.body) none false { nl := nl, cnt := 0, scopes := [[]] } _
+  have hbody := ihS { funcs := funcTable P, args := d.params } rfl (.block d.body) [] [] { nl := nl, cnt := 0, scopes := [[]] } _
     (State.mk (pc0 + 1 + 1) rest (List.replicate N .null) vs (MiniVm.Frame.mk (σ.pc + 1) σ.locals σ.args σ.inited :: σ.frames) b)
-    (by simpa [Allowed] using hall d hmem) (by intro h; cases h) hex
+    (by simpa [Allowed] using hall d hmem) ⟨rfl, rfl, by simp [totalSz], by simp [totalSz]⟩
+    (Or.inr ⟨⟨_, rfl⟩, fun e he => by cases he⟩) hex
     (hp.left.right.cast (by simp)) hrel hwf (by simp [hN]) (by simp; omega)
   exact Faults.of_reach ((Reach.step hcall).trans (h1.trans h2)) hbody
 
 theorem callFault_succ {P : Prog} {C : Code} {fuel : Nat} (hpc : ProgCode C P)
-    (ihS : ∀ cx : Ctx, cx.funcs = funcTable P → StmtFault P C cx fuel) (hall : ∀ d ∈ P, Allowed false d.body) :
+    (ihS : ∀ cx : Ctx, cx.funcs = funcTable P → StmtFault P C cx fuel) (hall : ∀ d ∈ P, Allowed [] d.body) :
     CallFault P C (fuel + 1) := by
   intro f vs σ rest hc hs hf hdep
   simp only [callF] at hc
@@ -1252,8 +1860,8 @@ theorem callFault_succ {P : Prog} {C : Code} {fuel : Nat} (hpc : ProgCode C P)
           | some v' => simp only at hc; split at hc <;> cases hc
           | none => simp at hc
         | norm e => simp at hc
-        | brk e => simp at hc
-        | cont e => simp at hc
+        | brk l e => simp at hc
+        | cont l e => simp at hc
       | overflow => rw [hex] at hc; simp at hc
       | stuck => rw [hex] at hc; simp at hc
       | timeout => rw [hex] at hc; simp at hc
@@ -1261,7 +1869,7 @@ theorem callFault_succ {P : Prog} {C : Code} {fuel : Nat} (hpc : ProgCode C P)
       simp [hne] at hc
 
 theorem callSFault_succ {P : Prog} {C : Code} {fuel : Nat} (hpc : ProgCode C P)
-    (ihS : ∀ cx : Ctx, cx.funcs = funcTable P → StmtFault P C cx fuel) (hall : ∀ d ∈ P, Allowed false d.body) :
+    (ihS : ∀ cx : Ctx, cx.funcs = funcTable P → StmtFault P C cx fuel) (hall : ∀ d ∈ P, Allowed [] d.body) :
     CallSFault P C (fuel + 1) := by
   intro f vs σ rest hc hs hf hdep
   simp only [callS] at hc
@@ -1283,8 +1891,8 @@ theorem callSFault_succ {P : Prog} {C : Code} {fuel : Nat} (hpc : ProgCode C P)
           | some v' => simp only at hc; split at hc <;> cases hc
           | none => simp only at hc; split at hc <;> cases hc
         | norm e => simp only at hc; split at hc <;> cases hc
-        | brk e => simp at hc
-        | cont e => simp at hc
+        | brk l e => simp at hc
+        | cont l e => simp at hc
       | overflow => rw [hex] at hc; simp at hc
       | stuck => rw [hex] at hc; simp at hc
       | timeout => rw [hex] at hc; simp at hc
@@ -1296,28 +1904,44 @@ structure AllFault (P : Prog) (C : Code) (fuel : Nat) : Prop where
   expr : ∀ (cx : Ctx) (sc : Scopes) (env : Env), cx.funcs = funcTable P → ExprFault P C cx sc env fuel
   stmt : ∀ cx : Ctx, cx.funcs = funcTable P → StmtFault P C cx fuel
   iter : ∀ cx : Ctx, cx.funcs = funcTable P → IterFault P C cx fuel
+  loop : ∀ cx : Ctx, cx.funcs = funcTable P → LoopFault P C cx fuel
+  body : ∀ cx : Ctx, cx.funcs = funcTable P → BodyFault P C cx fuel
+  cases : ∀ cx : Ctx, cx.funcs = funcTable P → CasesFault P C cx fuel
+  switch : ∀ cx : Ctx, cx.funcs = funcTable P → SwitchFault P C cx fuel
   call : CallFault P C fuel
   callS : CallSFault P C fuel
 
-theorem allFault {P : Prog} {C : Code} (hpc : ProgCode C P) (hall : ∀ d ∈ P, Allowed false d.body) :
+theorem allFault {P : Prog} {C : Code} (hpc : ProgCode C P) (hall : ∀ d ∈ P, Allowed [] d.body) :
     ∀ fuel, AllFault P C fuel := by
   intro fuel
   induction fuel with
   | zero =>
-    refine ⟨fun cx sc env _ => exprFault_zero P C cx sc env, fun cx _ => stmtFault_zero P C cx, fun cx _ => iterFault_zero P C cx, ?_, ?_⟩
+    refine ⟨fun cx sc env _ => exprFault_zero P C cx sc env, fun cx _ => stmtFault_zero P C cx, fun cx _ => iterFault_zero P C cx,
+      fun cx _ => loopFault_zero P C cx, fun cx _ => bodyFault_zero P C cx, fun cx _ => casesFault_zero P C cx,
+      fun cx _ => switchFault_zero P C cx, ?_, ?_⟩
     · intro f vs σ rest hc; simp [callF] at hc
     · intro f vs σ rest hc; simp [callS] at hc
   | succ n ih =>
     have ok := allOK hpc hall n
-    refine ⟨?_, ?_, ?_, callFault_succ hpc ih.stmt hall, callSFault_succ hpc ih.stmt hall⟩
+    refine ⟨?_, ?_, ?_, ?_, ?_, ?_, ?_, callFault_succ hpc ih.stmt hall, callSFault_succ hpc ih.stmt hall⟩
     · intro cx sc env htab
       exact exprFault_succ P C cx sc env n hpc.nodup htab (ih.expr cx sc env htab) (ok.expr cx sc env htab) ih.call
     · intro cx htab
       exact stmtFault_succ P C cx n hpc.nodup htab (fun sc env => ih.expr cx sc env htab) (fun sc env => ok.expr cx sc env htab)
-        (ih.stmt cx htab) (ok.stmt cx htab) (ih.iter cx htab) ih.callS
+        (ih.stmt cx htab) (ok.stmt cx htab) (ih.loop cx htab) (ih.switch cx htab) ih.callS
     · intro cx htab
       exact iterFault_succ P C cx n hpc.nodup (fun sc env => ih.expr cx sc env htab) (fun sc env => ok.expr cx sc env htab)
         (ih.stmt cx htab) (ok.stmt cx htab) (ih.iter cx htab)
+    · intro cx htab
+      exact loopFault_succ P C cx n (ih.stmt cx htab) (ok.stmt cx htab) (ih.iter cx htab)
+    · intro cx htab
+      exact bodyFault_succ P C cx n hpc.nodup (ih.stmt cx htab) (ok.stmt cx htab) (ih.body cx htab)
+    · intro cx htab
+      exact casesFault_succ P C cx n hpc.nodup (fun sc env => ih.expr cx sc env htab) (fun sc env => ok.expr cx sc env htab)
+        (ih.body cx htab) (ih.cases cx htab)
+    · intro cx htab
+      exact switchFault_succ P C cx n hpc.nodup (fun sc env => ih.expr cx sc env htab) (fun sc env => ok.expr cx sc env htab)
+        (ih.cases cx htab)
 
 end NeoModel.CompileProofs
 
@@ -1325,7 +1949,7 @@ namespace NeoModel.CompileProofs
 open NeoModel.MiniVm NeoModel.MiniVm.Asm NeoModel.MiniGo NeoModel.Compile
 
 /-- invocation of a function of the program from outside whose Go evaluation panics: the machine FAULTs. -/
-theorem entry_fault {P : Prog} {C : Code} (hpc : ProgCode C P) (hall : ∀ d ∈ P, Allowed false d.body)
+theorem entry_fault {P : Prog} {C : Code} (hpc : ProgCode C P) (hall : ∀ d ∈ P, Allowed [] d.body)
     {f : String} {vs rest : List Val} {fuel : Nat}
     (hrun : callF fuel P f vs = .panic) (hdep : fuel < 1024) :
     ∃ pc0 n, findLabel C (fnLabel P f) = some pc0 ∧
@@ -1348,11 +1972,11 @@ theorem entry_fault {P : Prog} {C : Code} (hpc : ProgCode C P) (hall : ∀ d ∈
           obtain ⟨pc0, nl, hp⟩ := hpc.funcs i d hi
           have hmem : d ∈ P := List.mem_of_getElem? hi
           have hcode : (compFunc (funcTable P) d i nl).1 =
-              [Item.lbl i, initSlotItem (compS { funcs := funcTable P, args := d.params } none (.block d.body) { nl := nl, cnt := 0, scopes := [[]] }).2.cnt d.params.length] ++
-                (compS { funcs := funcTable P, args := d.params } none (.block d.body) { nl := nl, cnt := 0, scopes := [[]] }).1 ++
+              [Item.lbl i, initSlotItem (compS { funcs := funcTable P, args := d.params } [] (.block d.body) { nl := nl, cnt := 0, scopes := [[]] }).2.cnt d.params.length] ++
+                (compS { funcs := funcTable P, args := d.params } [] (.block d.body) { nl := nl, cnt := 0, scopes := [[]] }).1 ++
                 (if lastIsRet d.body then [] else [Item.ins .ret]) := rfl
           rw [hcode] at hp
-          generalize hN : (compS { funcs := funcTable P, args := d.params } none (.block d.body) { nl := nl, cnt := 0, scopes := [[]] }).2.cnt = N at hp
+          generalize hN : (compS { funcs := funcTable P, args := d.params } [] (.block d.body) { nl := nl, cnt := 0, scopes := [[]] }).2.cnt = N at hp
           have hlbl : findLabel C i = some pc0 := hp.left.left.label hpc.nodup
           refine ⟨pc0, ?_⟩
           have h1 := skip_lbl (σ := State.mk pc0 (vs ++ rest) [] [] [] false) hp.left.left
@@ -1361,9 +1985,10 @@ theorem entry_fault {P : Prog} {C : Code} (hpc : ProgCode C P) (hall : ∀ d ∈
           have hrel : VarsRel { funcs := funcTable P, args := d.params } [[]] { frames := [[]], args := d.params.zip vs } (List.replicate N .null) vs :=
             ⟨by simp [FramesRel, FrameRel], zip_fst _ _ hlen, zip_snd _ _ hlen⟩
           have hwf : Wf { nl := nl, cnt := 0, scopes := [[]] } := ⟨by simp [slotsOf], by simp [slotsOf], by simp⟩
-          have hbody := (allFault hpc hall k).stmt { funcs := funcTable P, args := d.params } rfl (.block d.body) none false
+          have hbody := (allFault hpc hall k).stmt { funcs := funcTable P, args := d.params } rfl (.block d.body) [] []
             { nl := nl, cnt := 0, scopes := [[]] } _ (State.mk (pc0 + 1 + 1) rest (List.replicate N .null) vs [] b)
-            (by simpa [Allowed] using hall d hmem) (by intro h; cases h) hex
+            (by simpa [Allowed] using hall d hmem) ⟨rfl, rfl, by simp [totalSz], by simp [totalSz]⟩
+            (Or.inr ⟨⟨_, rfl⟩, fun e he => by cases he⟩) hex
             (hp.left.right.cast (by simp)) hrel hwf (by simp [hN]) (by simp; omega)
           obtain ⟨n, hn⟩ := Faults.of_reach (h1.trans h2) hbody
           exact ⟨n, by rw [hlab]; exact hlbl, hn⟩
@@ -1375,8 +2000,8 @@ theorem entry_fault {P : Prog} {C : Code} (hpc : ProgCode C P) (hall : ∀ d ∈
             | none => simp at hrun
             | some v' => simp only at hrun; split at hrun <;> cases hrun
           | norm e => simp at hrun
-          | brk e => simp at hrun
-          | cont e => simp at hrun
+          | brk l e => simp at hrun
+          | cont l e => simp at hrun
         | overflow => rw [hex] at hrun; simp at hrun
         | stuck => rw [hex] at hrun; simp at hrun
         | timeout => rw [hex] at hrun; simp at hrun
